@@ -108,7 +108,13 @@ impl<const D: usize> KdTreeSearch<D> for KdTree<D> {
             return Vec::new();
         };
 
-        let mut result = self.items_within(&query, last.distance.next_up());
+        // kiddo computes the distances of a full chunk and of the remainder of a leaf in different
+        // ways, so the same point can come out a few ulps farther here than it did in `nearest_n`.
+        // The bound is therefore relaxed a little (and kept positive for a neighbour at distance
+        // zero, as the comparison in a remainder is strict); anything it lets in beyond the count
+        // is cut off again after the sort.
+        let bound = (last.distance * (1.0 + 1e-12)).max(f64::MIN_POSITIVE);
+        let mut result = self.items_within(&query, bound);
         result.truncate(count.get());
         result
     }
